@@ -20,6 +20,7 @@ import Xandikos.Theorems.C10
 import Xandikos.Ical.IndexProofs
 import Xandikos.Ical.EscapeProofs
 import Xandikos.Tie.UnescapeEq
+import Xandikos.Tie.FindKeysEq
 
 namespace Xandikos.Theorems.C10Ical
 open Xandikos Xandikos.Py Xandikos.Store.Index Xandikos.Ical Xandikos.Theorems.C10
@@ -30,6 +31,18 @@ open Xandikos Xandikos.Py Xandikos.Store.Index Xandikos.Ical Xandikos.Theorems.C
 theorem code_is_model_unescape (text : List Char) (split : Bool) :
     Generated.unescape_text text split = .ok (unescapeText split text) :=
   Tie.unescape_text_eq text split
+
+/-- **the code is the model (index manager)**: `AutoIndexManager.find_present_keys`, as translated
+    from /repo on this run (nested loops, the flag, the counters, `index.reset`), gives the
+    answer, the counters and the index key set of the model's `findPresentKeys` — the state
+    machine `index_transparent_…` is proved about -/
+theorem code_is_model_find_present_keys {V : Type} (st : IState V) (necessary : List (List String)) :
+    let g := Generated.find_present_keys st.idx.keys st.mgr.threshold st.mgr.desired necessary
+    let m := findPresentKeys st necessary
+    m.2 = g.2.1 ∧ m.1.mgr.desired = g.1 ∧ m.1.mgr.threshold = st.mgr.threshold ∧
+      m.1.idx.keys = (match g.2.2 with | some ks => ks | none => st.idx.keys) ∧
+      (g.2.2.isSome → m.1.idx.vals = ∅) ∧ (g.2.2 = none → m.1.idx = st.idx) :=
+  Tie.find_present_keys_eq st necessary
 
 /-- **TEXT round trip on the code as it stands**: what the translated `_unescape_text` reads back
     from the index value the library writes for a clean text is that text -/
